@@ -56,13 +56,34 @@ fn map_token_types(v: &mut Value, f: &dyn Fn(u64) -> u64) {
         _ => {}
     }
 }
+/// Offsets and positions: the abstract 2147483640 stands for 2^53 + 1 (an integer a 64-bit float
+/// cannot hold), in every "start", "end", "line", "column" member.
+const BIG_ABS: u64 = 2_147_483_640;
+const BIG_CONC: u64 = (1 << 53) + 1;
+fn map_offsets(v: &mut Value, from: u64, to: u64) {
+    match v {
+        Value::Object(m) => {
+            for (k, x) in m.iter_mut() {
+                if ["start", "end", "line", "column"].contains(&k.as_str()) && x.as_u64() == Some(from) {
+                    *x = json!(to);
+                } else {
+                    map_offsets(x, from, to);
+                }
+            }
+        }
+        Value::Array(a) => a.iter_mut().for_each(|x| map_offsets(x, from, to)),
+        _ => {}
+    }
+}
 fn conc_json(v: &Value) -> Value {
     let mut c = v.clone();
     map_token_types(&mut c, &|n| crate::ttmap::conc_mono(n as usize) as u64);
+    map_offsets(&mut c, BIG_ABS, BIG_CONC);
     c
 }
 fn abs_json(mut v: Value) -> Value {
     map_token_types(&mut v, &|n| crate::ttmap::abs(n as usize));
+    map_offsets(&mut v, BIG_CONC, BIG_ABS);
     v
 }
 
